@@ -441,6 +441,22 @@ class Report:
             self.rule(rid, '(analysis)')
         self.bad(rid, key, detail, loc, kind='analysis-incomplete')
 
+    def relabel(self, old, new, text_prefix=''):
+        """move the obligations of a shared rule evaluated under another property's id to this property's id"""
+        if old not in self.rules:
+            return
+        r = self.rules.pop(old)
+        if text_prefix:
+            r['text'] = text_prefix + r['text']
+        if new in self.rules:
+            self.rules[new]['obligations'] += r['obligations']
+        else:
+            self.rules[new] = r
+        for v in self.violations:
+            if v['rule'] == old:
+                v['rule'] = new
+                v['key'] = v['key'].replace(old + '|', new + '|', 1)
+
     def finish(self):
         """Apply floors, known findings; print; write evidence; return exit code."""
         for rid, r in self.rules.items():
